@@ -18,4 +18,5 @@ def run(col, configs, tier):
         guarded(col, W.rule_grisu, facts)
         guarded(col, X.rule_divisibility_test, facts)
         guarded(col, X.rule_grisu_weed, facts)
+        guarded(col, X.rule_grisu_boundaries, facts)
         guarded(col, X.rule_jeaiii, facts)
